@@ -30,6 +30,7 @@ func C06(c *Ctx) {
 	r.Rule("C06-e", "an expression is answered from the memo table only if what its evaluation does is determined by the node and the offset: a kind whose evaluator stores into the label scope of its caller (a labelled expression binds its label there) or runs a code block on that scope without evaluating an operand of its own first (the code predicates: the labels they read were bound by an enclosing sequence that may have started elsewhere) is excluded from the lookup in parseExprWrap")
 	r.Rule("C06-f", "errList.add appends every error it is given: which errors are reported does not depend on how many were recorded before (re-evaluations add duplicates that only dedupe removes, so a cap or filter in add makes the result depend on Memoize)")
 	r.Rule("C06-j", "an evaluator's outcome is a function of (node, offset): every parser field a parse<Kind> routine reads in a branch condition is configuration (not stored into while expressions are evaluated), the position, the expression budget, the rule being evaluated or the handler stack - a mode flag or depth counter maintained by enclosing evaluators makes the remembered result of one context wrong in another")
+	r.Rule("C06-k", "no expression memo inside left-recursive rules (C08-b under this property): the lookup and the store of parseExprWrap are both guarded by `not leftRecursive` of the rule on top of the rule stack - every member of a recursive group, not only the leader; a remembered result of a non-leader member would be replayed against an older seed")
 	r.Rule("C06-i", "no method of the error list drops a recorded error (stores into the list append; the de-duplication runs once, when the list is returned): an error dropped after a lookahead or a failed attempt is reported again only if its code block runs again, which a memo hit prevents")
 	r.Rule("C06-h", "a memo entry that is found is the answer: in parseExprWrap and parseRuleMemoize every path on which the lookup succeeded returns without evaluating, and every path that evaluates after a lookup assumes exactly that the lookup missed - no further condition decides whether a hit is used (a hit ignored under some condition re-evaluates the expression at that offset every time: the bound of one evaluation per expression and offset is lost)")
 	r.Rule("C06-w", "configuration flags are assigned only by their option function (and newParser defaults): memoize, debug, recover, allowInvalidUTF8, maxExprCnt, entrypoint")
@@ -60,6 +61,9 @@ func C06(c *Ctx) {
 		errListKeepsAll(c, a.V, "C06-f")
 		errListMethodsKeepErrors(c, a.V, "C06-i")
 		c06j(c, a.V)
+		if a.V.Params.LeftRecursion {
+			memoOffInLeftRecursiveRules(c, a.V, "C06-k")
+		}
 	}
 	r.Min("non-optimized variants", 8, n)
 }
